@@ -1517,6 +1517,7 @@ dfs_search:
 
             top_sibling = root;
             pos = 1;
+            elem = NULL;
             goto dfs_search;
         }
     }
